@@ -11,6 +11,7 @@ import (
 	"unsafe"
 
 	"github.com/philpearl/avro"
+	"github.com/unravelin/null/v5"
 
 	"verifharness/aschema"
 	"verifharness/dynenc"
@@ -764,72 +765,179 @@ func runControls(c *fw.Ctx) {
 	}
 }
 
+// runSiblings: the library-registered types in SEVERAL positions of one record at once (two pointer fields, a
+// map and a slice next to a plain field), so that the values the codec allocates for one field sit next to the
+// values it allocates for the others; every combination of the leaf values for the two pointers.
+func runSiblings(c *fw.Ctx) {
+	for _, lt := range []reflect.Type{gv.TimeT, gv.NullIntT, gv.NullBoolT, gv.NullFloatT, gv.NullStringT, gv.NullTimeT} {
+		pt := reflect.PointerTo(lt)
+		outer := reflect.StructOf([]reflect.StructField{
+			{Name: "F", Type: pt, Tag: `json:"f"`}, {Name: "G", Type: pt, Tag: `json:"g"`},
+			{Name: "M", Type: reflect.MapOf(reflect.TypeOf(""), lt), Tag: `json:"m"`}, {Name: "L", Type: reflect.SliceOf(pt), Tag: `json:"l"`},
+			{Name: "D", Type: lt, Tag: `json:"d"`}})
+		locus := lt.String() + "|siblings"
+		pv := libValues(pt, lt)
+		mv := libValues(outer.Field(2).Type, lt)
+		lv := libValues(outer.Field(3).Type, lt)
+		dv := libValues(lt, lt)
+		var vals []reflect.Value
+		for i, f := range pv {
+			for j, g := range pv {
+				v := reflect.New(outer).Elem()
+				v.Field(0).Set(f)
+				v.Field(1).Set(g)
+				v.Field(2).Set(mv[(i+j)%len(mv)])
+				v.Field(3).Set(lv[(i+2*j)%len(lv)])
+				v.Field(4).Set(dv[(2*i+j)%len(dv)])
+				vals = append(vals, v)
+			}
+		}
+		desc := "library-registered " + lt.String() + " as two pointer fields, map values, slice of pointers and a plain field of one record"
+		c.Eval(int64(len(vals)))
+		c.Nontrivial(desc)
+		c.Begin(locus, desc)
+		var buf bytes.Buffer
+		var ferr error
+		if c.Guard(locus+"|file", desc, desc, func() {
+			e, err := dynenc.New(outer, &buf, "null", 64)
+			if err != nil {
+				ferr = err
+				return
+			}
+			for _, v := range vals {
+				e.Encode(unsafe.Pointer(v.UnsafeAddr()))
+			}
+			ferr = e.Flush()
+		}) {
+			continue
+		}
+		if ferr != nil {
+			c.Violation("file-encode-error|"+locus, ferr.Error()+" — "+desc, desc)
+			continue
+		}
+		res := filedrv.Read(buf.Bytes(), 0, outer, false, -1, nil)
+		if res.Panic != nil || res.Err != nil || len(res.Records) != len(vals) {
+			c.Violation("file-read|"+locus, fmt.Sprintf("ReadFile: %s — %s", res, desc), desc)
+			continue
+		}
+		for i, v := range vals {
+			if containsPtrToInvalidOrNilInner(v) {
+				continue // recorded known findings of C01
+			}
+			if d := gv.Equal(v, res.Records[i]); d != "" {
+				c.Violation("round-trip|"+locus, fmt.Sprintf("record %d read back %s, wrote %s (difference at %s) — %s", i, clip(gv.Show(res.Records[i])), clip(gv.Show(v)), d, desc), desc)
+				break
+			}
+		}
+	}
+}
+
 // runLibraryHistories: sequences over {L = avrotime.RegisterCodecs(), A = the application registers its own
 // builder and schema for time.Time}; the most recent one must govern time.Time at every position.
 func runLibraryHistories(c *fw.Ctx, depth int) {
 	type TTs struct {
 		T time.Time `json:"t"`
 	}
+	type NNs struct {
+		N null.Int `json:"n"`
+	}
 	appSchema, _ := avro.SchemaFromString(`{"type":"long","logicalType":"app-epoch-seconds"}`)
-	appBuilds := 0
+	appNullSchema, _ := avro.SchemaFromString(`{"type":"long","logicalType":"app-null-int"}`)
+	appBuilds := [2]int{}
 	appBuilder := func(schema avro.Schema, typ reflect.Type, omit bool) (avro.Codec, error) {
-		appBuilds++
+		appBuilds[0]++
 		return appTimeCodec{}, nil
 	}
+	appNullBuilder := func(schema avro.Schema, typ reflect.Type, omit bool) (avro.Codec, error) {
+		appBuilds[1]++
+		return appNullIntCodec{}, nil
+	}
+	opName := [...]string{"time.RegisterCodecs", "app-registers-time.Time", "null.RegisterCodecs", "app-registers-null.Int"}
 	states, transitions := map[string]bool{}, 0
-	for _, h := range seqs([]int{0, 1}, depth) {
+	for _, h := range seqs([]int{0, 1, 2, 3}, depth) {
+		// every history starts from "the library's registrations are in force for both types"
+		reg.Again()
+		gov := [2]int{0, 0} // who governs time.Time / null.Int: 0 library, 1 application
 		for i, op := range h {
-			if op == 0 {
-				reg.Again() // the library's RegisterCodecs (time and null)
-			} else {
+			switch op {
+			case 0:
+				reg.Time()
+				gov[0] = 0
+			case 1:
 				avro.Register(gv.TimeT, appBuilder)
 				avro.RegisterSchema(gv.TimeT, appSchema)
+				gov[0] = 1
+			case 2:
+				reg.Null()
+				gov[1] = 0
+			case 3:
+				avro.Register(gv.NullIntT, appNullBuilder)
+				avro.RegisterSchema(gv.NullIntT, appNullSchema)
+				gov[1] = 1
 			}
 			transitions++
 			hist := ""
 			for _, o := range h[:i+1] {
-				hist += [...]string{"time.RegisterCodecs ", "app-registers-time.Time "}[o]
+				hist += opName[o] + " "
 			}
-			states[[...]string{"library", "application"}[op]] = true
-			c.Eval(1)
-			c.Nontrivial("libhist:" + hist)
-			desc := "time.Time after history [" + strings.TrimSpace(hist) + "]"
-			locus := "time.Time|registration-history"
-			c.Begin(locus, desc)
-			var sch avro.Schema
-			var err error
-			var out []byte
-			before := appBuilds
-			if c.Guard(locus, desc, desc, func() {
-				sch, err = avro.SchemaForType(TTs{})
+			states[fmt.Sprint(gov)] = true
+			for typ := 0; typ < 2; typ++ {
+				c.Eval(1)
+				tname := [...]string{"time.Time", "null.Int"}[typ]
+				c.Nontrivial("libhist:" + tname + ":" + hist)
+				desc := tname + " after history [" + strings.TrimSpace(hist) + "]"
+				locus := tname + "|registration-history"
+				c.Begin(locus, desc)
+				var sch avro.Schema
+				var err error
+				var out []byte
+				before := appBuilds[typ]
+				if c.Guard(locus, desc, desc, func() {
+					var probe interface{} = TTs{}
+					if typ == 1 {
+						probe = NNs{}
+					}
+					sch, err = avro.SchemaForType(probe)
+					if err != nil {
+						return
+					}
+					var codec avro.Codec
+					codec, err = sch.Codec(probe)
+					if err != nil {
+						return
+					}
+					w := avro.NewWriteBuf(nil)
+					if typ == 0 {
+						v := TTs{T: time.Unix(1700000000, 0).UTC()}
+						codec.Write(w, unsafe.Pointer(&v))
+					} else {
+						v := NNs{N: null.IntFrom(1700000000)}
+						codec.Write(w, unsafe.Pointer(&v))
+					}
+					out = w.Bytes()
+				}) {
+					continue
+				}
 				if err != nil {
-					return
+					c.Violation("registration-history-error|"+tname, fmt.Sprintf("%v — %s", err, desc), desc)
+					continue
 				}
-				var codec avro.Codec
-				codec, err = sch.Codec(TTs{})
-				if err != nil {
-					return
-				}
-				v := TTs{T: time.Unix(1700000000, 0).UTC()}
-				w := avro.NewWriteBuf(nil)
-				codec.Write(w, unsafe.Pointer(&v))
-				out = w.Bytes()
-			}) {
-				continue
-			}
-			if err != nil {
-				c.Violation("registration-history-error|time.Time", fmt.Sprintf("%v — %s", err, desc), desc)
-				continue
-			}
-			ft := aschema.FromAvro(sch.Object.Fields[0].Type).Print(nil)
-			if op == 0 {
-				// the library's registration is the most recent: [null,string], RFC 3339 text, the application's builder untouched
-				if ft != `["null","string"]` || appBuilds != before || len(out) < 10 || out[0] != 2 {
-					c.Violation("superseded-registration-still-in-force|time.Time|library-should-govern", fmt.Sprintf("schema %s, application builder consulted %d times, bytes %x — %s", ft, appBuilds-before, out, desc), desc)
-				}
-			} else {
-				if !strings.Contains(ft, "app-epoch-seconds") || appBuilds == before || string(out) != string(ref.AppendLong(nil, 1700000000)) {
-					c.Violation("superseded-registration-still-in-force|time.Time|application-should-govern", fmt.Sprintf("schema %s, application builder consulted %d times, bytes %x — %s", ft, appBuilds-before, out, desc), desc)
+				ft := aschema.FromAvro(sch.Object.Fields[0].Type).Print(nil)
+				wantLib := [...]string{`["null","string"]`, `["null","long"]`}[typ]
+				marker := [...]string{"app-epoch-seconds", "app-null-int"}[typ]
+				if gov[typ] == 0 {
+					// the library's registration is the most recent one for this type
+					libBytes := len(out) >= 2 && out[0] == 2
+					if typ == 1 {
+						libBytes = string(out) == string(ref.AppendLong([]byte{2}, 1700000000))
+					}
+					if ft != wantLib || appBuilds[typ] != before || !libBytes {
+						c.Violation("superseded-registration-still-in-force|"+tname+"|library-should-govern", fmt.Sprintf("schema %s, application builder consulted %d times, bytes %x — %s", ft, appBuilds[typ]-before, out, desc), desc)
+					}
+				} else {
+					if !strings.Contains(ft, marker) || appBuilds[typ] == before || string(out) != string(ref.AppendLong(nil, 1700000000)) {
+						c.Violation("superseded-registration-still-in-force|"+tname+"|application-should-govern", fmt.Sprintf("schema %s, application builder consulted %d times, bytes %x — %s", ft, appBuilds[typ]-before, out, desc), desc)
+					}
 				}
 			}
 		}
@@ -838,7 +946,24 @@ func runLibraryHistories(c *fw.Ctx, depth int) {
 	c.Count("states", int64(len(states)))
 	c.Count("transitions", int64(transitions))
 	c.Count("traces_validated_against_impl", int64(transitions))
-	c.Sample(map[string]interface{}{"kind": "library vs application registration of time.Time", "histories_up_to_length": depth, "transitions": transitions})
+	c.Sample(map[string]interface{}{"kind": "library (time, null packages separately) vs application registration of time.Time and null.Int", "histories_up_to_length": depth, "transitions": transitions, "model_states": len(states)})
+}
+
+type appNullIntCodec struct{ avro.Int64Codec }
+
+func (appNullIntCodec) Read(r *avro.ReadBuf, p unsafe.Pointer) error {
+	var l int64
+	if err := (avro.Int64Codec{}).Read(r, unsafe.Pointer(&l)); err != nil {
+		return err
+	}
+	*(*null.Int)(p) = null.IntFrom(l)
+	return nil
+}
+func (appNullIntCodec) New(r *avro.ReadBuf) unsafe.Pointer { return r.Alloc(gv.NullIntT) }
+func (appNullIntCodec) Omit(p unsafe.Pointer) bool         { return false }
+func (appNullIntCodec) Write(w *avro.WriteBuf, p unsafe.Pointer) {
+	l := (*null.Int)(p).Int64
+	(avro.Int64Codec{}).Write(w, unsafe.Pointer(&l))
 }
 
 type appTimeCodec struct{ avro.Int64Codec }
@@ -964,7 +1089,7 @@ func init() {
 			if tier == "thorough" {
 				d = 4
 			}
-			return fmt.Sprintf("explicit-state exploration of registration histories on the real global registries, model = (current builder ∈ {none,f1,f2}, current schema ∈ {none,s1,s2,s3=[string,null]}) with 'last registration wins', for custom types of four kinds (named int64, struct, named slice, named string) with instrumented codecs (invocation counters; builder f2 marks its wire data so the codec actually used is observable): (a) from the unregistered state every history of length<=3 over {Register(f1),Register(f2)} and over {RegisterSchema(s1),RegisterSchema(s2)}, each on a type nobody registered before (generic named types give 40 fresh types per kind); (b) every history of length<=%d over all four operations with the state carried over; after every operation the type is used at 11 positions {field,*T,**T,[]T,[]*T,map[string]T,map[string]*T,omitempty,struct{X T},[]struct{X T},map[string][]T}: SchemaForType must show the model's schema there, Schema.Codec must consult exactly the model's builder, every occurrence must go through that builder's codec (counters), bytes must decode under the generated schema with the reference decoder, values must round-trip at codec and file level; controls: never-registered look-alike types and the library's own time.Time / null.* registrations at the same positions; plus every history (one level deeper) over {time.RegisterCodecs(), the application registering its own builder and schema for time.Time}, after each step of which the most recent registration must govern time.Time; distinct_nontrivial counts distinct (type, history, position) uses", d)
+			return fmt.Sprintf("explicit-state exploration of registration histories on the real global registries, model = (current builder ∈ {none,f1,f2}, current schema ∈ {none,s1,s2,s3=[string,null]}) with 'last registration wins', for custom types of four kinds (named int64, struct, named slice, named string) with instrumented codecs (invocation counters; builder f2 marks its wire data so the codec actually used is observable): (a) from the unregistered state every history of length<=3 over {Register(f1),Register(f2)} and over {RegisterSchema(s1),RegisterSchema(s2)}, each on a type nobody registered before (generic named types give 40 fresh types per kind); (b) every history of length<=%d over all four operations with the state carried over; after every operation the type is used at 11 positions {field,*T,**T,[]T,[]*T,map[string]T,map[string]*T,omitempty,struct{X T},[]struct{X T},map[string][]T}: SchemaForType must show the model's schema there, Schema.Codec must consult exactly the model's builder, every occurrence must go through that builder's codec (counters), bytes must decode under the generated schema with the reference decoder, values must round-trip at codec and file level; controls: never-registered look-alike types and the library's own time.Time / null.* registrations at the same positions; and all of them together as siblings of one record (two pointer fields × every pair of leaf values, map values, slice of pointers, plain field); plus every history (one level deeper) over {time.RegisterCodecs(), null.RegisterCodecs(), the application registering its own builder and schema for time.Time, the same for null.Int}, after each step of which the most recent registration FOR THAT TYPE must govern time.Time and null.Int (a registration call for other types must not touch it); distinct_nontrivial counts distinct (type, history, position) uses", d)
 		},
 		Assumptions: []string{
 			"a registration cannot be undone, so model state is carried across histories within a worker; states with an unregistered component are only reachable on fresh types",
@@ -984,6 +1109,7 @@ func init() {
 			}
 			if idx == 4 {
 				runControls(c)
+				runSiblings(c)
 				c.Count("states", 1)
 				c.Count("transitions", 1)
 				return
